@@ -42,6 +42,18 @@ RULES = {
   ("KF-C04-2", "integer-division-with-integral-float-constant-folded-as-float", r'^value-differs// \[(untyped-float-const, typed-const|typed-const, untyped-float-const)\]$',
    "c_int / 2.0 is integer division in Go (7/2 = 3) because 2.0 is converted to int; the builder folds 3.5", "ast.go binaryOp integer-division special case looks at the constant kinds only"),
  ],
+ "C17": [
+  ("KF-C17-1", "assignment-like-operations-assume-a-reference-operand", r'^run-time-fault/(AssignOp\S+|IncDec) .* failed-type-assertion$',
+   "AssignOp and IncDec assert that the operand on the stack is a reference (refType) without checking: any other operand ends in a failed type assertion", "codebuild.go:1604, :1674"),
+  ("KF-C17-2", "huge-constant-without-configured-big-number-types", r'huge-constant.*(nil-dereference|index-out-of-range)$',
+   "a constant beyond 64 bits is retyped to the configured big-number type; when none is configured (the default) the nil type is dereferenced", "template.go:393-399"),
+  ("KF-C17-3", "ill-kinded-constant-pairs-die-inside-go-constant", r'(foreign-panic\(go/constant,math/big\)|\[untyped-constant, untyped-constant\] failed-type-assertion)$',
+   "constant operands bypass operand matching (KF-C01-1), so ill-kinded pairs (true * \"s\", -\"s\", !1, 1 % 0, huge shift counts) reach go/constant / math/big, which panic", "ast.go binaryOp/unaryOp"),
+  ("KF-C17-4", "exotic-operand-shapes-are-dereferenced-unchecked", r'\[(novalue|tuple2|type|ref), [^\]]*\] (nil-dereference|failed-type-assertion|index-out-of-range)$|\[[^,]*, (novalue|tuple2|type|ref)\] (nil-dereference|failed-type-assertion|index-out-of-range)$',
+   "operands that are not ordinary values (a call without result, a multi-value call, a type, a reference) are used without checking their shape by operators, literals, append/copy, case clauses", "ast.go / builtin_gengo.go / util_gengo.go"),
+  ("KF-C17-5", "constant-shift-count-unbounded", r'^process-fatal/BinaryOp<<',
+   "a constant shifted left by a constant count allocates count bits: 1 << 2^40 exhausts memory and kills the process", "ast.go:550-557"),
+ ],
 }
 unclaimed = []
 groups = {}
